@@ -620,8 +620,10 @@ Section ComposeBlocksBlocks.
       assert (SE : set_eqb (rs_keys A) (rs_keys B) = true).
       { unfold set_eqb. rewrite (proj2 (subset_spec _ _)) by (intros c Hc; apply RKab; exact Hc).
         rewrite (proj2 (subset_spec _ _)) by (intros c Hc; apply RKab; exact Hc). reflexivity. }
-      rewrite SE. cbn [negb]. rewrite (cbr_example A B HA). fold RK CC ctrows rkrow inp. rewrite T1. cbn [res_bind]. rewrite T2.
-      rewrite (cbr_drop_inp A HA). rewrite D2.
+      pose proof (cbr_example A B HA) as EXI. pose proof (cbr_drop_inp A HA) as DI.
+      fold RK CC ctrows rkrow inp in EXI, DI.
+      rewrite SE. cbn [negb]. rewrite EXI. rewrite T1. cbn [res_bind]. rewrite T2.
+      fold RK. rewrite DI. rewrite D2.
       cbn [rm_strict rm_in rm_out andb].
       assert (L1 : Nat.ltb (List.length (rows inp)) 2 = false).
       { apply Nat.ltb_ge. cbn [rows inp]. rewrite map_length. apply (sf_two_rows A FA). }
